@@ -286,6 +286,15 @@ CHECKS["C23"] = dict(
     shards_quick=16, budget_quick=45, shards_thorough=16, budget_thorough=480, release_pass=False, miri=False,
     assumptions=WALLET_ASSUME, crash_is_violation=True)
 
+CHECKS["C22"] = dict(
+    level="exploration",
+    technique="conservation / exact-transfer monitor: the real command line builds and broadcasts rune send, burn and split transactions on generated inventories; the harness mines them, the real indexer applies ord's rune rules, and per-script rune balances and burned totals before and after (hook H2 + chain) are compared with the request",
+    level_text="Exploration over inventories x requests: generated wallets (one or two runes with divisibility 0-3, 1-3 outputs per rune, optionally both runes in one output, mixed with inscribed and cardinal outputs) x requests {0, 1, one output's exact balance, the sum of two outputs, a random partial amount, the full balance, more than held} x {send, burn, split with one or two recipients and one or two runes} at several fee rates; about 10^2 commands per quick run.",
+    rule="after mining the broadcast transaction: each recipient script gained exactly the requested units of each rune; no other foreign script's balance changed; burned total of each rune changed by exactly the requested burn (0 for send and split); wallet total of each rune dropped by exactly what was sent or burned. A refused command (non-zero exit or nothing broadcast) must leave every balance untouched; a request that names zero units must be refused. distinct = inventory shape tuples.",
+    floors={"evaluations": 60, "wallets": 10, "moved_exactly_send": 8, "moved_exactly_burn": 3, "moved_exactly_split": 3, "refusals_left_balances_untouched": 10, "zero_amount_refused": 3, "moved_exactly_with_several_outputs_of_the_rune": 3},
+    shards_quick=16, budget_quick=50, shards_thorough=16, budget_thorough=480, release_pass=False, miri=False,
+    assumptions=WALLET_ASSUME, crash_is_violation=True)
+
 codec("C27",
       "round-trip monitor: generated Inscription values written with ord's reveal-script builder (one or several per script, several inputs, arbitrary script prefix/suffix, five witness shapes incl. annex) and parsed back with ParsedEnvelope::from_transaction; independent encoders for the compact pointer / id / rune-commitment values; totality monitor on damaged scripts and random witnesses (every accessor of the result is called); a dead shard process (stack overflow, allocation failure) is a violation",
       "Exploration over field combinations and sizes (1, 75/76, 255/256, 519-521, 1039-1041, 65535/65536, up to 400 kB; values that look like script), 0-8 inscriptions per script, 1-3 inputs; pointer and index byte-length boundaries enumerated. Witness bytes are sampled (8 hostile script classes), not enumerated.",
